@@ -81,7 +81,9 @@ FAMS_S2 = ["sl-npa", "sl-np", "vj-mgga", "vj-gga", "sdmx", "vk-mgga", "vi-gga"]
 FAMS_NOS2 = ["sl-nst", "sl-ns", "vj-nst"]
 FAMS_4 = ["vj-mgga", "vj-gga", "vk-mgga", "sdmx"]  # nfeat >= 4 (nlda_x_damp reads feature 3)
 EV_FLAT = ["rbf", "kernel", "antisym", "linear", "subset", "rbf1", "kernel-agpr", "kernel-subset",
-           "rbf+linear", "kernel+rbf+linear", "antisym+rbf", "subset-strict", "subset-list", "subset-strict+linear"]
+           "rbf+linear", "kernel+rbf+linear", "antisym+rbf", "subset-strict", "subset-list", "subset-strict+linear",
+           # a strict-subset evaluator AFTER evaluators that wrote the same derivative columns (it must add, not overwrite)
+           "kernel+subset-strict", "rbf+subset-list", "linear+rbf+subset-strict"]
 EV_POL = ["spinrbf", "spinrbf+spinrbf", "spinrbf1"]
 
 
